@@ -65,7 +65,7 @@ def build(it, types=(), func_imports=(), functions=(), globals_=(), global_impor
     ds = []
     for mem, off, nbytes, passive in data_segments:
         ds.append({'memoryIndex': mem, 'offset': off if off is not None else null_buffer(),
-                   'bytes': {'data': Ptr([7] * nbytes, 0), 'length': nbytes}, 'passive': int(passive)})
+                   'bytes': {'data': Ptr(([7, 9] + [0] * nbytes)[:nbytes], 0), 'length': nbytes}, 'passive': int(passive)})
     m['dataSegments'] = {'dataSegments': arr(ds), 'count': len(ds)}
     es = [{'tableIndex': t, 'offset': off, 'functionIndexCount': len(ix), 'functionIndices': arr(ix)} for t, off, ix in element_segments]
     m['elementSegments'] = {'elementSegments': arr(es), 'count': len(es)}
